@@ -1,6 +1,7 @@
 """Property table (kept apart from plan.py so that plan.py stays small)."""
 from .plan import register
 from . import frame
+from . import standin
 
 BASE = ['elements']
 NUM = ['z3', 'cpython', 'numpy-scalar']
@@ -50,3 +51,20 @@ register('C11', level='other', sidecars=['statespace'], trusted=NET,
 register('C12', level='other', sidecars=BASE + ['statespace'], trusted=NET + ['lsim'],
          explanation='contracts on TransientSolution with a stubbed simulator (model matrices, zero initial state, input column order, outputs = C x + D u, power = v i, unknown ids) and, bounded, '
                      'KCL for every state and input, i = C dv/dt and v = L di/dt on the C10 circuits; the simulator itself (scipy lsim) is an assumed contract')
+register('C18', level='other', sidecars=[], trusted=['cpython'], extras=[standin.make('display', 'display.py')],
+         explanation='bounded stand-in only (B-C18): the real ScientificFloat / ScientificComplex / Display code is run on a grid of p-digit decimal mantissas times powers of ten, '
+                     'their float neighbours, rounding-carry points, both signs, every prefix table of Display.py; the run-time contract (parse back within half a unit of the p-th digit, '
+                     'exponent multiple of three, mantissa in [1,1000], sign kept, saturation to the infinity sign beyond the range) is evaluated on each')
+register('C13', level='other', sidecars=BASE + ['components', 'schematic', 'schematic_parser'], trusted=NUM + ['schemdraw'], extras=[standin.make('drawing', 'drawing.py')],
+         explanation='proved for all values / names / reversal flags (on the schemdraw interface model): each of the 27 symbol translators yields the intended component (kind, id, value as given, '
+                     'polarity start->end unless reversed) and the translator table maps each symbol class to its own translator. Bounded: parser and circuit_translator on fixed drawings '
+                     '(wire-connected terminals are one node, labels and ground name their nodes, insertion order irrelevant, distinct nodes get distinct names, >1 ground rejected, unknown symbol rejected); '
+                     'real-schemdraw stand-in for rotation / unit / wire subdivision / label order')
+register('C14', level='other', sidecars=['schematic_solution', 'declarative'], trusted=NUM + ['schemdraw'],
+         explanation='proved at the call boundary for all values and options: each annotation adapter passes sign*quantity (sign = -1 iff reverse; potentials never negated), the right unit and the display '
+                     'options to the display helper; draw_* request the text for that element and direction and hand it, with direction flag reverse xor element.is_reverse, to the label symbol; '
+                     'unknown names raise. The display helpers (number -> text) are kept abstract here and covered by the C18 stand-in.')
+register('C15', level='other', sidecars=['declarative'], trusted=NUM + ['schemdraw'], extras=[standin.make('drawing', 'drawing.py')],
+         explanation='proved: the declarative handler table builds each symbol kind with the declared name, reversal flag and values equal to the programmatic construction; direction / place-after helpers '
+                     'call exactly the named placement; unknown type / missing fields raise. Bounded stand-in on real schemdraw: every persistable symbol kind x reversal x (deg, sin) flags survives three '
+                     'JSON save/load cycles with an identical translated circuit (ids, kinds, values, terminal order up to node renaming, reference node).')
